@@ -10,6 +10,7 @@ from .refeval import Diverge, Domain, RefRuntimeError, Unspecified
 refval.register_fn('host_fn', gen_prog.host_fn)
 refval.register_fn('host_hp', gen_prog.host_hp)
 
+DROP = object()  # options_extra value: remove that key from the options of the real run
 _SKIP_NAME = re.compile(r'^(__bareScript.*|it\d+|ix\d+)$')
 
 
@@ -85,6 +86,8 @@ def run_real(text, init, pattern, limit=60000, debug=False, parse=None, timeout=
     options = {'globals': g, 'logFn': logs.append, 'maxStatements': limit, 'debug': debug}
     if options_extra:
         options.update(options_extra)
+        for k in [k for k, v in options_extra.items() if v is DROP]:
+            del options[k]
     try:
         with core.alarm(timeout):
             model = parse(text)
